@@ -277,7 +277,13 @@ func (s *Solver) Check(extra *Term, want []*Term, final bool) (Result, []uint64)
 		}
 	}
 	if !definitive {
-		s.raw("(pop 1)\n")
+		// z3 (4.8.12 and 5.1.0 alike) cannot be trusted after a check-sat that timed out inside a
+		// push/pop scope: replaying recorded transcripts, the NEXT check-sat of the same process
+		// answered "sat" with a model violating path-level assertions (the fp-to-bv side constraints
+		// of the popped scope are lost) where a fresh process answers unsat / unknown. The live
+		// solver is therefore restarted with the path script replayed after every undecided query.
+		s.Restarts++
+		s.restartWithScript()
 		return s.portfolio(queryText, want)
 	}
 	res := Unknown
